@@ -189,6 +189,10 @@ def extract_tables():
     T['updaters'] = list(mm_collection._updaters)
     upd = _src_tree(mm_collection.Collection._apply_update)
     T['updateInline'] = _compared_names(upd, mm_collection, eq_only=True)
+    # the pre-check of the operators of an update (run before any document is looked for): the
+    # names it has a branch for, i.e. lets through (`k in _updaters or k in _OTHER_UPDATE_OPERATORS`)
+    check = getattr(mm_collection, '_validate_update_operators', None)
+    T['updateChecked'] = _compared_names(_src_tree(check), mm_collection) if check else []
     clause_sets = []
     for node in ast.walk(upd):
         if isinstance(node, ast.Set) and node.elts and all(
@@ -432,6 +436,8 @@ class Prober(object):
         # missing-field candidate since the C01 `deadend` repair, hence is validated)
         # (the name removed: the filter without the condition — `{p: {}}` is an equality with
         # the empty sub-document, which nothing meets on such a path)
+        # `$ne` / `$nin` are also given null operands (data file, args.queryFieldDeadEnd): a
+        # missing field equals null, so a matcher that looks at the operand selects nothing then
         return [self._find_call({p: {name: a}}, [{}])
                 for p in ['loc.q', 'loc.9'] for a in args]
 
@@ -699,6 +705,7 @@ def probe_vocab(seed=0, T=None, V=None, positions=None, names=None):
     kinds = vocab_names(V)
     taken = set(kinds)
     for key in ('operatorMap', 'logicalOps', 'topLevelNI', 'fieldNI', 'updaters', 'updateInline',
+                'updateChecked',
                 'pushModifiers', 'stagesImpl', 'stagesNone', 'exprNI', 'groupingMap',
                 'groupInline', 'groupOperators'):
         for n in T[key]:
